@@ -43,6 +43,10 @@ def on_error_resume_next_(
         def action(
             scheduler: abc.SchedulerBase, state: Exception | None = None
         ) -> None:
+            if subscription.is_disposed:
+                # the subscriber unsubscribed (or was terminated) while this
+                # continuation was queued: do not consume another source
+                return
             try:
                 source = next(sources_)
             except StopIteration:
